@@ -810,11 +810,10 @@ func ruleL5(c *Ctx) {
 		if !ok {
 			return
 		}
-		mc, ok := d.Call.Value.(*ssa.MakeClosure)
-		if !ok {
+		cl := deferredBody(d)
+		if cl == nil {
 			return
 		}
-		cl := mc.Fn.(*ssa.Function)
 		eachInstr(cl, func(in2 ssa.Instruction) {
 			s, ok := in2.(*ssa.Store)
 			if !ok {
@@ -898,4 +897,92 @@ func pkgFuncs(fn *ssa.Function) []*ssa.Function {
 		}
 	}
 	return out
+}
+
+func init() {
+	register("L6", "callee errors keep their backtrace: the error returned by starlark.Call (an *EvalError carrying the inner frames) is only tested, stored or returned as is - it is never passed to a formatting/wrapping function that would replace it by a plain error and drop the inner call stack", 5, ruleL6)
+}
+
+func ruleL6(c *Ctx) {
+	callFn := c.P.Func("starlark", "Call")
+	if callFn == nil {
+		c.anchorFail("starlark.Call not found")
+		return
+	}
+	n := 0
+	for _, fn := range c.P.Funcs {
+		if !isProdPkg(fnPkgPath(fn)) || fn == callFn {
+			continue
+		}
+		eachInstr(fn, func(in ssa.Instruction) {
+			call, ok := in.(*ssa.Call)
+			if !ok || call.Call.StaticCallee() != callFn {
+				return
+			}
+			n++
+			key := fmt.Sprintf("%s: error of starlark.Call", fnName(fn))
+			pos := c.P.Pos(call.Pos())
+			var errv ssa.Value
+			for _, r := range *call.Referrers() {
+				if ex, ok := r.(*ssa.Extract); ok && ex.Index == 1 {
+					errv = ex
+				}
+			}
+			if errv == nil {
+				// `return Call(...)`: the tuple is returned whole
+				c.ok(key, pos, "returned together with the result")
+				return
+			}
+			bad := ""
+			seen := map[ssa.Value]bool{}
+			var follow func(v ssa.Value)
+			follow = func(v ssa.Value) {
+				if seen[v] {
+					return
+				}
+				seen[v] = true
+				for _, r := range *v.Referrers() {
+					switch x := r.(type) {
+					case *ssa.Return, *ssa.If, *ssa.BinOp, *ssa.DebugRef:
+					case *ssa.Phi:
+						follow(x)
+					case *ssa.Store:
+						// err = err2 (local/named result): follow loads of that variable
+						if a, ok := x.Addr.(*ssa.Alloc); ok {
+							for _, r2 := range *a.Referrers() {
+								if ld, ok := r2.(*ssa.UnOp); ok && ld.Op == token.MUL {
+									follow(ld)
+								}
+							}
+						}
+					case *ssa.MakeInterface:
+						follow(x)
+					case *ssa.TypeAssert, *ssa.ChangeInterface:
+						follow(r.(ssa.Value))
+					case ssa.CallInstruction:
+						cal := x.Common().StaticCallee()
+						name := calleeName(x)
+						if cal != nil && (cal.Name() == "Error" || cal.Name() == "Unwrap" || cal.String() == "errors.As" || cal.String() == "errors.Is") {
+							continue
+						}
+						if x.Common().IsInvoke() && x.Common().Value == v {
+							continue // err.Error() etc.
+						}
+						if bad == "" {
+							bad = name + " at " + c.P.Pos(x.Pos())
+						}
+					}
+				}
+			}
+			follow(errv)
+			if bad == "" {
+				c.ok(key, pos, "only tested, stored or returned unchanged")
+			} else {
+				c.viol(key, pos, "the callee's error is passed to "+bad+": wrapping it in a new error discards the *EvalError and with it the frames of the failing callee, so the reported stack ends at the built-in")
+			}
+		})
+	}
+	if n < 5 {
+		c.anchorFail("only %d calls of starlark.Call found", n)
+	}
 }
